@@ -13,7 +13,7 @@ RULE = ("token-kind sequences over the 17 parser-visible kinds with representati
 
 TEXT = {'lparen': ['('], 'rparen': [')'], 'dot': ['.'], 'dcolon': ['::'], 'colon': [':'], 'semi': [';'], 'equals': ['='],
         'comma': [','], 'slash': ['/'], 'import': ['import'], 'let': ['let'], 'bool': ['true', 'false'], 'ident': ['a', 'b', 'f', 'x_1'],
-        'ipv4': ['1.2.3.4', '255.0.0.1'], 'str': ['"s"', '"|00 ff|"', '""'], 'hex': ['0x1f', '0x0'], 'int': ['5', '0', '65535']}
+        'ipv4': ['1.2.3.4', '255.0.0.1'], 'str': ['"s"', '"|00 ff|"', '""'], 'hex': ['0x1f', '0x0', '0x00000000000000001', '0x0000ffffffffffffffff'], 'int': ['5', '0', '65535', '000000000000000000000000007']}
 BADLIT = ['99999999999999999999', '-5', '01.2.3.4', '256.1.1.1', '"|f|"', '"|zz|"', '0xfffffffffffffffff', '65536', '18446744073709551615']
 KINDS = list(TEXT)
 
